@@ -426,6 +426,27 @@ pub fn encode(doc: &OdsDoc) -> Vec<u8> {
 }
 
 /// `content` replaces content.xml (used for encrypted packages, where it is opaque bytes)
+/// the package parts in archive order (mimetype first), for the fault injector
+pub fn parts(doc: &OdsDoc) -> Vec<(String, Vec<u8>)> {
+    let names = ["content.xml", "styles.xml", "meta.xml", "settings.xml"];
+    vec![
+        ("mimetype".to_string(), MIMETYPE.as_bytes().to_vec()),
+        ("content.xml".to_string(), content_xml(doc).into_bytes()),
+        ("styles.xml".to_string(), b"<office:document-styles xmlns:office=\"urn:oasis:names:tc:opendocument:xmlns:office:1.0\"/>".to_vec()),
+        ("META-INF/manifest.xml".to_string(), manifest_xml(doc, &names).into_bytes()),
+    ]
+}
+
+/// zip parts as given (first entry stored)
+pub fn pack_parts(parts: Vec<(String, Vec<u8>)>) -> Vec<u8> {
+    let entries: Vec<zipw::ZipEntry> = parts
+        .into_iter()
+        .enumerate()
+        .map(|(i, (name, data))| zipw::ZipEntry { name, data, method: if i == 0 { zipw::Method::Stored } else { zipw::Method::Deflate(6) }, data_descriptor: false })
+        .collect();
+    zipw::write_zip(&entries, b"")
+}
+
 pub fn encode_with_content(doc: &OdsDoc, content: Vec<u8>) -> Vec<u8> {
     let names = ["content.xml", "styles.xml", "meta.xml", "settings.xml"];
     let manifest = manifest_xml(doc, &names);
